@@ -743,7 +743,7 @@ class Gen:
         roles = self.inv.get("roles", {})
         out = []
         kinds = ["dummy", "database-file-integrity", "web-server-404-penalty", "webpage-unavailable-penalty", "green-admin-database-unreachable-penalty", "action-penalty"]
-        for _ in range(r.randint(0, 4)):
+        for _ in range(r.randint(1, 5) if self.p.get("reward_rich") else r.randint(0, 4)):
             k = r.choice(kinds)
             w = r.choice([1.0, 0.5, 0.25, 0.0, -0.5, 2.0, 0.33])
             hn = r.choice(list(hosts))
@@ -779,11 +779,17 @@ class Gen:
         if sum(weights) == 0:
             weights[0] = 1
         probs = [w / sum(weights) for w in weights]
+        table = {i: p for i, p in enumerate(probs)}
+        if self.chance(0.3) and "unordered_probability_keys" not in self.avoid:
+            # a YAML mapping may list its keys in any order
+            items = list(table.items())
+            r.shuffle(items)
+            table = dict(items)
         agent = {
             "ref": ref,
             "team": "GREEN",
             "type": "probabilistic-agent",
-            "agent_settings": {"action_probabilities": {i: p for i, p in enumerate(probs)}},
+            "agent_settings": {"action_probabilities": table},
             "action_space": {"action_map": {i: a for i, a in enumerate(acts)}},
             "reward_function": {"reward_components": self.reward_components(ref)},
         }
@@ -809,8 +815,8 @@ class Gen:
         }
         if kind == "periodic-agent":
             settings["start_variance"] = r.randint(0, 3)
-            if self.chance(0.4):
-                settings["max_executions"] = r.randint(0, 3)
+        if self.chance(0.4) and (kind == "periodic-agent" or "max_executions_on_db_agent" not in self.avoid):
+            settings["max_executions"] = r.randint(0, 3)
         agent = {"ref": ref, "team": "RED", "type": kind, "agent_settings": settings}
         if self.chance(0.5):
             agent["reward_function"] = {"reward_components": self.reward_components(ref)}
@@ -836,11 +842,15 @@ class Gen:
             order = [a["ref"] for a in agents]
             r.shuffle(order)
             for i, ref in enumerate(order[:-1]):
-                if self.chance(0.5):
-                    src = r.choice(order[i + 1 :])
+                if self.chance(0.8 if self.p.get("reward_rich") else 0.5):
+                    # edges only point to later agents of a random order: acyclic by construction; picking the next one
+                    # often makes chains (depth > 1)
+                    src = order[i + 1] if self.chance(0.6) else r.choice(order[i + 1 :])
                     ag = next(a for a in agents if a["ref"] == ref)
                     ag.setdefault("reward_function", {"reward_components": []})["reward_components"].append({"type": "shared-reward", "weight": r.choice([1.0, 0.5, -1.0]), "options": {"agent_name": src}})
         r.shuffle(agents)  # declaration order is part of the schedule
+        if self.p.get("blue_first") and self.chance(self.p["blue_first"]):
+            agents.sort(key=lambda a: a["ref"] != "defender")
         for a in self.inv["agents"]:
             a["order"] = [x["ref"] for x in agents].index(a["ref"])
         lo, hi = self.p["episode_len"]
